@@ -113,6 +113,16 @@ def run_pair_file(unc, d, lang, cfgpath, pairs, ctxname, tag, use_lexer):
         rc2, so2, se2, evs2 = obs.run(unc, ["-c", cfgpath, "-q", "-l", lang, "-f", src2], cwd=d, trace=tr, timeout=60)
         os.unlink(src2)
         tk2 = obs.event(evs2, "Tokenized")
+        if rc2 != 0 or tk2 is None:
+            # uncrustify does not read its own output back (a pair that is no code in this language): no token stream to compare;
+            # the other pairs of the file are run again in halves
+            if len(pairs) == 1:
+                a, b, ang = pairs[0]
+                return [dict(id="%s|%s|%s|%s" % (lang, ctxname, a, b), a=list(a), b=list(b), ang=ang, rc=rc2 or 97, ins=[], outs=[],
+                             gap0=False, force=-1, ctx=ctxname)]
+            h = len(pairs) // 2
+            return (run_pair_file(unc, d, lang, cfgpath, pairs[:h], ctxname, tag + "a", use_lexer) +
+                    run_pair_file(unc, d, lang, cfgpath, pairs[h:], ctxname, tag + "b", use_lexer))
 
         def stream(t):
             out = []
